@@ -450,100 +450,65 @@ class Enumerator:
         self.binops = list(binops)
         self.cmpops = list(cmpops)
         self.memo = {}
-        self.cmemo = {}
-
-    # number of trees (without materialising)
-    def count(self, d, k):
-        key = (d, k)
-        if key in self.cmemo:
-            return self.cmemo[key]
-        if d == 0:
-            r = len(self.alphabet) if k == 1 else 0
-        else:
-            c = lambda kk: self.count(d - 1, kk)
-            r = len(UNOPS) * c(k)
-            for shape, mult in self._shapes():
-                m = shape
-                for comp in compositions(k, m):
-                    p = mult
-                    for kk in comp:
-                        p *= c(kk)
-                        if not p:
-                            break
-                    r += p
-            # trees of depth <= d-1 are included; composites counted above all have depth
-            # exactly <= d and are NEW only if some child has depth exactly d-1 or d == 1 --
-            # simpler: count(d) = atoms + composites-with-children-of-depth<=d-1
-            r += len(self.alphabet) if k == 1 else 0
-        self.cmemo[key] = r
-        return r
-
-    def _shapes(self):
-        """(number of child slots, number of productions with that many slots)"""
-        nb, nc = len(self.binops), len(self.cmpops)
-        return [
-            (1, 2 + 1),  # tuple1, list1, slice(base)
-            (2, nb + 1 + nc + 2 + 1 + 3),  # bin, bool2 x2 -> see below
-            (3, 2 + nc * nc + 2 + 3),
-            (4, 1),
-        ]
 
     def trees(self, d, k):
-        """list of all trees of depth <= d with exactly k leaves"""
+        """materialised list of all trees of depth <= d with exactly k leaves"""
         key = (d, k)
-        if key in self.memo:
-            return self.memo[key]
-        out = []
+        if key not in self.memo:
+            self.memo[key] = list(self.iter_trees(d, k))
+        return self.memo[key]
+
+    def iter_trees(self, d, k):
+        """every tree of depth <= d with exactly k leaves, each exactly once, in a fixed order
+        (children lists are materialised, the top level is lazy)"""
         if k == 1:
-            out.extend(self.alphabet)
-        if d >= 1:
-            sub = lambda kk: self.trees(d - 1, kk)
-            for c in sub(k):
-                for op in UNOPS:
-                    out.append(("un", op, c))
-            # one slot
-            for c in sub(k):
-                out.append(("tuple", (c,)))
-                out.append(("list", (c,)))
-                out.append(("slice", c, None, None, None))
-            # two slots
-            for k1, k2 in compositions(k, 2):
+            yield from self.alphabet
+        if d < 1:
+            return
+        sub = lambda kk: self.trees(d - 1, kk)
+        for c in sub(k):
+            for op in UNOPS:
+                yield ("un", op, c)
+            yield ("tuple", (c,))
+            yield ("list", (c,))
+            yield ("slice", c, None, None, None)
+        for k1, k2 in compositions(k, 2):
+            for a in sub(k1):
+                for b in sub(k2):
+                    for op in self.binops:
+                        yield ("bin", op, a, b)
+                    for op in BOOLOPS:
+                        yield ("bool", op, (a, b))
+                    for op in self.cmpops:
+                        yield ("cmp", (op,), (a, b))
+                    yield ("tuple", (a, b))
+                    yield ("list", (a, b))
+                    yield ("sub", a, b)
+                    yield ("slice", a, b, None, None)
+                    yield ("slice", a, None, b, None)
+                    yield ("slice", a, None, None, b)
+        if k >= 3:
+            for k1, k2, k3 in compositions(k, 3):
                 for a in sub(k1):
                     for b in sub(k2):
-                        for op in self.binops:
-                            out.append(("bin", op, a, b))
-                        for op in BOOLOPS:
-                            out.append(("bool", op, (a, b)))
-                        for op in self.cmpops:
-                            out.append(("cmp", (op,), (a, b)))
-                        out.append(("tuple", (a, b)))
-                        out.append(("list", (a, b)))
-                        out.append(("sub", a, b))
-                        out.append(("slice", a, b, None, None))
-                        out.append(("slice", a, None, b, None))
-                        out.append(("slice", a, None, None, b))
-            # three slots
-            if k >= 3:
-                for k1, k2, k3 in compositions(k, 3):
-                    for a in sub(k1):
-                        for b in sub(k2):
-                            for c in sub(k3):
-                                for op in BOOLOPS:
-                                    out.append(("bool", op, (a, b, c)))
-                                for o1 in self.cmpops:
-                                    for o2 in self.cmpops:
-                                        out.append(("cmp", (o1, o2), (a, b, c)))
-                                out.append(("tuple", (a, b, c)))
-                                out.append(("list", (a, b, c)))
-                                out.append(("slice", a, b, c, None))
-                                out.append(("slice", a, b, None, c))
-                                out.append(("slice", a, None, b, c))
-            if k >= 4:
-                for comp in compositions(k, 4):
-                    for a in sub(comp[0]):
-                        for b in sub(comp[1]):
-                            for c in sub(comp[2]):
-                                for e in sub(comp[3]):
-                                    out.append(("slice", a, b, c, e))
-        self.memo[key] = out
-        return out
+                        for c in sub(k3):
+                            for op in BOOLOPS:
+                                yield ("bool", op, (a, b, c))
+                            for o1 in self.cmpops:
+                                for o2 in self.cmpops:
+                                    yield ("cmp", (o1, o2), (a, b, c))
+                            yield ("tuple", (a, b, c))
+                            yield ("list", (a, b, c))
+                            yield ("slice", a, b, c, None)
+                            yield ("slice", a, b, None, c)
+                            yield ("slice", a, None, b, c)
+        if k >= 4:
+            for comp in compositions(k, 4):
+                for a in sub(comp[0]):
+                    for b in sub(comp[1]):
+                        for c in sub(comp[2]):
+                            for e in sub(comp[3]):
+                                yield ("slice", a, b, c, e)
+
+    def count(self, d, k):
+        return sum(1 for _ in self.iter_trees(d, k))
